@@ -180,6 +180,12 @@ class Check:
 
     # -- collection -------------------------------------------------------
     def add(self, ob: Ob):
+        flt = getattr(self, "ob_filter", None)
+        if flt is not None:
+            import re as _re
+            if not _re.search(flt, ob.name):
+                self.filtered = getattr(self, "filtered", 0) + 1
+                return ob
         self.obs.append(ob)
         return ob
 
@@ -332,23 +338,24 @@ class Check:
             else:
                 self.extra[k] = v
 
-    def run_parallel(self, module, func, tasks, workers=8):
+    def run_parallel(self, module, func, tasks, workers=8, sink_attrs=None):
         """tasks: list of kwargs dicts for module.func(loader, sink, **kwargs); each runs in a forked
         worker with its own sink, discharges there, and the plain results are merged here."""
         import multiprocessing as mp
         if workers <= 1 or len(tasks) <= 1:
             for t in tasks:
-                self.merge(_worker((self.prop, self.tier, module, func, t)))
+                self.merge(_worker((self.prop, self.tier, module, func, t, sink_attrs)))
             return
         ctx = mp.get_context("fork")
         with ctx.Pool(min(workers, len(tasks))) as pool:
-            for d in pool.imap_unordered(_worker, [(self.prop, self.tier, module, func, t) for t in tasks]):
+            for d in pool.imap_unordered(_worker, [(self.prop, self.tier, module, func, t, sink_attrs) for t in tasks]):
                 self.merge(d)
 
     # -- findings -----------------------------------------------------------
     def match_finding(self, ob):
         for f in self.findings:
-            if f.get("status") != "open" or f["property"] != self.prop:
+            props = f["property"] if isinstance(f["property"], list) else [f["property"]]
+            if f.get("status") != "open" or self.prop not in props:
                 continue
             pats = f["instance"] if isinstance(f["instance"], list) else [f["instance"]]
             obpats = f["obligation"] if isinstance(f["obligation"], list) else [f["obligation"]]
@@ -505,11 +512,14 @@ class Check:
 
 
 def _worker(a):
-    prop, tier, module, func, kwargs = a
+    prop, tier, module, func, kwargs = a[:5]
+    sink_attrs = a[5] if len(a) > 5 else None
     import importlib
     import traceback
     from .loader import Loader
     sink = Check(prop, tier)
+    for k, v in (sink_attrs or {}).items():
+        setattr(sink, k, v)
     try:
         mod = importlib.import_module(module)
         for attr in ("z3_timeout_ms", "cvc5_timeout_ms", "cvc5_models", "string_refute_bound"):
